@@ -553,8 +553,7 @@ const leafKinds = 17
 
 // leaf consumes exactly 8 draws.
 func (g *filterGen) leaf(d0 *draws, kind int, countSensitiveOK bool) *btpb.RowFilter {
-	d := &draws{v: d0.v[d0.i : d0.i+8]}
-	d0.i += 8
+	d := d0.sub(8)
 	inv := g.invalid && d.n(6) == 5
 	if g.forceInv == 1 {
 		inv = false
